@@ -1,4 +1,36 @@
-import BareModel.NumText
+import BareProofs.C13Lemmas
+
+/-!
+# C13 — numbers survive conversion to text and back; integers print without a fraction
+
+What is **proved** (for all strings, no bound on length) is the text surgery the code performs on top of CPython's `repr`/`float`:
+
+* `patterns_as_modelled`      the regex sources the scanners were written for are the ones in the working tree (generated table)
+* `strip_preserves_value`     `re.sub(r'\.0*$', '', s)` keeps the rational number denoted by any `s` of the `repr` grammar
+* `strip_integral_no_fraction` `ds.0…0` becomes `ds`, which contains no point
+* `strip_noop_on_exponent`, `strip_noop_without_trailing_dot_zeros`, `strip_noop_nonfinite`   where the clean-up is the identity
+* `strip_is_literal`          for non-negative `s` of the `repr` grammar the result is consumed *entirely* by the source-literal
+                              scanner `_R_EXPR_NUMBER` (`e+16` / `e-07` fit `e[+-]\d+`), and `float(group 1)` denotes the same number
+* `literal_never_raises`      `float(match.group(1))` cannot raise on ASCII text (`_partial` in that respect: non-ASCII decimal
+                              digits are covered by correspondence only)
+* `parse_number_total`        the model of `numberParseFloat` answers only if the *whole* text (after surrounding whitespace and
+                              digit-group underscores) is one decimal literal, with exactly its value, below the overflow bound
+* `parse_float_never_nonfinite` `inf`/`infinity`/`nan` texts give null
+* `parse_int_total`           the model of `numberParseInt` answers only if the whole text is sign, optional radix prefix, digits
+                              below the radix with single underscores between them
+* `int_prints_digits_only`, `int_text_roundtrip`   `str(int)` is an optional `-` and ASCII digits, and denotes the integer
+* `roundtrip_under_assumptions`, `literal_roundtrip_under_assumptions`
+                              with A1/A2 about CPython as explicit hypotheses (structure `PyFloat`):
+                              `numberParseFloat(valueString x) = x`, and for non-negative text the source literal evaluates to `x`
+
+What is **assumed** (DESIGN §6; sampled by the `numtext` stream, never proved): CPython's shortest-round-trip `float.__repr__`
+and correctly rounded `float()` — hypotheses `PyFloat.repr_grammar`, `PyFloat.float_repr` (A1) and the use of `ofRat` for
+`float(text)` (A2: the result depends only on the rational the text denotes).  `_partial` by nature: the shortest-repr algorithm is
+not modelled.
+-/
+
+set_option linter.unusedSimpArgs false
+set_option linter.unusedVariables false
 
 namespace C13
 open NumText
@@ -8,5 +40,399 @@ theorem patterns_as_modelled :
     patternOf "value.R_NUMBER_CLEANUP" = some ("\\.0*$", 32) ∧
     patternOf "library.R_NUMBER_CLEANUP" = some ("\\.0*$", 32) ∧
     patternOf "parser._R_EXPR_NUMBER" = some ("^\\s*([+-]?\\d+(?:\\.\\d*)?(?:e[+-]\\d+)?)", 32) := by decide
+
+/-! ## the clean-up `\.0*$` on `repr` text -/
+
+/-- For every string of the `repr` grammar the clean-up keeps the denoted number (and there is one). -/
+theorem strip_preserves_value (s : String) (h : IsRepr s) :
+    ∃ q, decVal s = some q ∧ decVal (stripDotZeros s) = some q := by
+  obtain ⟨t, hl, hw, hr⟩ := repr_tok h
+  obtain ⟨t', hs, hw', _, hv, _, _⟩ := strip_tok hw hr
+  refine ⟨t.val, ?_, ?_⟩
+  · simp [decVal, hl, decValL_text hw]
+  · simp [decVal, stripDotZeros, String.toList_ofList, hl, hs, decValL_text (tokWF_weaken hw'), hv]
+
+example : IsRepr "123.0" ∧ IsRepr "0.1" ∧ IsRepr "-0.0" ∧ IsRepr "1e+16" ∧ IsRepr "1.5e-07" ∧ IsRepr "5e-324" ∧
+    IsRepr "1.7976931348623157e+308" ∧ ¬ IsRepr "1e16" ∧ ¬ IsRepr "123" ∧ ¬ IsRepr "1.e+05" ∧ ¬ IsRepr "+1.0" := by decide
+example : decVal "123.0" = some 123 ∧ decVal (stripDotZeros "123.0") = some 123 ∧ stripDotZeros "123.0" = "123" := by decide +kernel
+example : decVal "1.5e-07" = some ((3 : Rat) / 20000000) ∧ decVal "-0.0" = some 0 ∧ decVal "0.1" = some ((1 : Rat) / 10) := by
+  decide +kernel
+example : ∃ q, decVal "100.000" = some q ∧ decVal (stripDotZeros "100.000") = some q :=
+  strip_preserves_value "100.000" (by decide)
+
+theorem count_dot_text {t : Tok} (f : ReprFacts t) : List.count '.' t.text ≤ 1 := by
+  obtain ⟨sign, ip, frac, exp⟩ := t
+  have h1 : List.count '.' sign.text = 0 := List.count_eq_zero.mpr (dot_not_sign _)
+  have h2 : List.count '.' ip = 0 := List.count_eq_zero.mpr (dot_not_ascii f.ip)
+  have h3 : List.count '.' (fracText frac) ≤ 1 := by
+    cases frac with
+    | none => simp [fracText]
+    | some fp =>
+      have : List.count '.' fp = 0 := List.count_eq_zero.mpr (dot_not_ascii (f.fp fp rfl).1)
+      simp [fracText, this]
+  have h4 : List.count '.' (expText exp) = 0 := by
+    cases exp with
+    | none => simp [expText]
+    | some e =>
+      obtain ⟨_, hup, _, hed, _⟩ := f.sci e rfl
+      have a : List.count '.' e.sign.text = 0 := List.count_eq_zero.mpr (dot_not_sign _)
+      have b : List.count '.' e.digits = 0 := List.count_eq_zero.mpr (dot_not_ascii hed)
+      simp [expText, ExpPart.text, hup, List.count_append, a, b, List.count_cons]
+  simp only [Tok.text, List.count_append, h1, h2, h4]
+  omega
+
+/-- An integral value's `repr` `ds.0` (more generally `ds.00…0`) is printed as `ds`, and `ds` has no decimal point. -/
+theorem strip_integral_no_fraction (ds : String) (k : Nat)
+    (h : IsRepr (ds ++ String.ofList ('.' :: List.replicate k '0'))) :
+    stripDotZeros (ds ++ String.ofList ('.' :: List.replicate k '0')) = ds ∧ '.' ∉ ds.toList := by
+  obtain ⟨t, hl, hw, hr⟩ := repr_tok h
+  have hc := count_dot_text (reprFacts hr)
+  rw [← hl] at hc
+  simp only [String.toList_append, String.toList_ofList, List.count_append, List.count_cons_self] at hc
+  have hz : List.count '.' ds.toList = 0 := by omega
+  have hnd : '.' ∉ ds.toList := List.count_eq_zero.mp hz
+  refine ⟨?_, hnd⟩
+  simp [stripDotZeros, String.toList_append, String.toList_ofList, stripL_trailing_zeros hnd, String.ofList_toList]
+
+example : stripDotZeros "9007199254740992.0" = "9007199254740992" ∧ '.' ∉ "9007199254740992".toList :=
+  strip_integral_no_fraction "9007199254740992" 1 (by decide)
+example : stripDotZeros "-0.0" = "-0" := by decide
+
+/-- Exponent forms are left alone. -/
+theorem strip_noop_on_exponent (s : String) (h : IsRepr s) (he : 'e' ∈ s.toList) : stripDotZeros s = s := by
+  obtain ⟨t, hl, hw, hr⟩ := repr_tok h
+  obtain ⟨t', hs, _, _, _, _, hcase⟩ := strip_tok hw hr
+  have f := reprFacts hr
+  have hexp : t.exp ≠ none := by
+    intro hn
+    rw [hl] at he
+    obtain ⟨sign, ip, frac, exp⟩ := t
+    simp only at hn; subst hn
+    simp only [Tok.text, expText, List.append_nil, List.mem_append] at he
+    rcases he with he | he | he
+    · cases sign <;> simp [Sign.text] at he
+    · have := f.ip _ he; revert this; decide
+    · cases frac with
+      | none => simp [fracText] at he
+      | some fp =>
+        simp [fracText] at he
+        have := (f.fp fp rfl).1 _ he; revert this; decide
+  rcases hcase with hc | ⟨hc, _⟩
+  · subst hc
+    simp [stripDotZeros, hl, hs]
+    rw [← hl, String.ofList_toList]
+  · exact absurd hc hexp
+
+example : stripDotZeros "1e+16" = "1e+16" := strip_noop_on_exponent "1e+16" (by decide) (by decide)
+example : stripDotZeros "1.5e-07" = "1.5e-07" := strip_noop_on_exponent "1.5e-07" (by decide) (by decide)
+
+/-- For ALL strings: unless the text ends in `.` `0`* (optionally followed by one final newline, where `$` also matches), the
+clean-up changes nothing. -/
+theorem strip_noop_without_trailing_dot_zeros (s : String)
+    (h : ∀ p k, s.toList ≠ p ++ '.' :: List.replicate k '0' ∧ s.toList ≠ p ++ '.' :: (List.replicate k '0' ++ ['\n'])) :
+    stripDotZeros s = s := by
+  simp [stripDotZeros, stripL_noop_general h, String.ofList_toList]
+
+/-- … and when it does end so and has no earlier point, exactly that tail is removed (for all strings). -/
+theorem strip_removes_trailing_dot_zeros (p : String) (k : Nat) (h : '.' ∉ p.toList) :
+    stripDotZeros (p ++ String.ofList ('.' :: List.replicate k '0')) = p := by
+  simp [stripDotZeros, String.toList_append, String.toList_ofList, stripL_trailing_zeros h, String.ofList_toList]
+
+example : stripDotZeros "0.1" = "0.1" ∧ stripDotZeros "100" = "100" ∧ stripDotZeros "1.05" = "1.05" ∧
+    stripDotZeros "5." = "5" ∧ stripDotZeros "1.0\n" = "1\n" ∧ stripDotZeros "1.0.0" = "1.0" := by decide
+
+/-- `repr` of the non-finite floats is left alone, and the number parser answers null on it. -/
+theorem strip_noop_nonfinite (s : String) (h : IsReprNonFinite s) : stripDotZeros s = s ∧ numberParseFloat s = none := by
+  rcases h with h | h | h <;> subst h <;> decide
+
+/-! ## the result as a source literal -/
+
+theorem reSpace_ascii {c : Char} (h : isAsciiDigit c = true) : isReSpace c = false := by
+  simp [isAsciiDigit] at h
+  simp [isReSpace, isUniSpace]
+  omega
+
+/-- For a non-negative string of the `repr` grammar the cleaned text is consumed entirely by the numeric-literal scanner
+(`_R_EXPR_NUMBER`), and `float(group 1)` denotes the same number as the `repr` text. -/
+theorem strip_is_literal (s : String) (h : IsRepr s) (hpos : s.toList.head? ≠ some '-') :
+    ∃ q, decVal s = some q ∧ literal (stripDotZeros s) = .number (stripDotZeros s).length q := by
+  obtain ⟨t, hl, hw, hr⟩ := repr_tok h
+  obtain ⟨t', hs, hw', ha', hv, hsg, _⟩ := strip_tok hw hr
+  have f := reprFacts hr
+  have hnone : t'.sign = .none := by
+    rw [hsg]
+    cases hsign : t.sign with
+    | none => rfl
+    | plus => exact absurd hsign f.noPlus
+    | minus => rw [hl] at hpos; simp [Tok.text, hsign, Sign.text] at hpos
+  refine ⟨t.val, by simp [decVal, hl, decValL_text hw], ?_⟩
+  have hst : (stripDotZeros s).toList = t'.text := by simp [stripDotZeros, String.toList_ofList, hl, hs]
+  -- the text starts with a digit: `\s*` consumes nothing
+  have hdrop : t'.text.dropWhile isReSpace = t'.text := by
+    rcases hw'.someDigit with hip | ⟨hh, _⟩
+    · cases hi : t'.ip with
+      | nil => exact absurd hi hip
+      | cons c r =>
+        have hc : isReSpace c = false := reSpace_ascii (ha'.ip c (by simp [hi]))
+        simp [Tok.text, hnone, Sign.text, hi, List.dropWhile, hc]
+    · simp at hh
+  unfold literal
+  simp only [hst, hdrop, scanTok_text hw', floatText_text hw' (tokWF_weaken hw') ha', hv]
+  simp [String.length, hst]
+
+example : literal "1e+16" = .number 5 10000000000000000 ∧ literal "1.5e-07" = .number 7 ((3 : Rat) / 20000000) := by decide +kernel
+example : ∃ q, decVal "123.0" = some q ∧ literal (stripDotZeros "123.0") = .number (stripDotZeros "123.0").length q :=
+  strip_is_literal "123.0" (by decide) (by decide)
+/-- what the sign requirement of the literal grammar excludes (and `repr` never produces): -/
+example : literal "1e16" = .number 1 1 ∧ literal "1E+16" = .number 1 1 ∧ literal ".5" = .noMatch := by decide +kernel
+
+/-- `float(match.group(1))` cannot raise: on ASCII text whatever `_R_EXPR_NUMBER` matched is a number for `float()`.
+(`_partial`: for non-ASCII decimal digits, which both `\d` and `float()` accept, this is covered by correspondence only.) -/
+theorem literal_never_raises (s : String) (ha : ∀ c ∈ s.toList, c.toNat < 128) : literal s ≠ .floatRaises := by
+  unfold literal
+  simp only
+  cases hsc : scanTok true (s.toList.dropWhile isReSpace) with
+  | none => simp
+  | some p =>
+    obtain ⟨t, rest⟩ := p
+    obtain ⟨hl, hw⟩ := scanTok_sound hsc
+    have hsub : ∀ c ∈ t.text, c.toNat < 128 := by
+      intro c hc
+      apply ha
+      apply (List.dropWhile_sublist isReSpace).subset
+      rw [hl]; simp [hc]
+    have hasc : TokAscii t := by
+      obtain ⟨sign, ip, frac, exp⟩ := t
+      refine ⟨?_, ?_, ?_⟩
+      · intro c hc; exact ascii_of_isDig (hw.ip c hc) (hsub c (by simp [Tok.text, hc]))
+      · intro fp hfp c hc
+        simp only at hfp; subst hfp
+        exact ascii_of_isDig (hw.fp fp rfl c hc) (hsub c (by simp [Tok.text, fracText, hc]))
+      · intro e he c hc
+        simp only at he; subst he
+        exact ascii_of_isDig ((hw.exp e rfl).digs c hc) (hsub c (by simp [Tok.text, expText, ExpPart.text, hc]))
+    simp [floatText_text hw (tokWF_weaken hw) hasc]
+
+example : literal "12abc" = .number 2 12 ∧ literal "  7.e+2x" = .number 7 700 ∧ literal "abc" = .noMatch := by decide +kernel
+
+/-! ## the parsers are total and never answer with a partial or non-finite value -/
+
+/-- `numberParseFloat` answers a number only if the whole text — after surrounding whitespace and digit-group underscores — is
+one decimal literal `[+-]?(D+\.?D*|\.D+)([eE][+-]?D+)?`; the answer is exactly the number it denotes, below the overflow bound. -/
+theorem parse_number_total (s : String) (q : Rat) (h : numberParseFloat s = some q) :
+    ∃ t, floatBody s = some t.text ∧ TokWF false t ∧ t.val = q ∧ -overflowBound < q ∧ q < overflowBound := by
+  unfold numberParseFloat at h
+  cases hft : floatText s with
+  | none => simp [hft] at h
+  | some r =>
+    cases r with
+    | inf b => simp [hft] at h
+    | nan => simp [hft] at h
+    | fin q' =>
+      simp only [hft] at h
+      by_cases hov : overflowBound ≤ q' ∨ q' ≤ -overflowBound
+      · simp [hov] at h
+      · simp only [hov, if_false, Option.some.injEq] at h
+        subst h
+        unfold floatText at hft
+        cases hb : floatBody s with
+        | none => simp [hb] at hft
+        | some b =>
+          simp only [hb, Option.bind_some] at hft
+          unfold floatLitOfBody at hft
+          cases hin : parseInfNan b with
+          | some r' =>
+            simp only [hin] at hft
+            unfold parseInfNan at hin
+            dsimp only at hin
+            split at hin
+            · simp at hin; subst hin; simp at hft
+            · split at hin
+              · simp at hin; subst hin; simp at hft
+              · simp at hin
+          | none =>
+            simp only [hin] at hft
+            cases hsc : scanTok false b with
+            | none => simp [hsc] at hft
+            | some p =>
+              obtain ⟨t, rest⟩ := p
+              cases rest with
+              | cons c cs => simp [hsc] at hft
+              | nil =>
+                simp [hsc] at hft
+                obtain ⟨hl, hw⟩ := scanTok_sound hsc
+                refine ⟨t, by simpa using congrArg some hl, hw, hft, ?_, ?_⟩
+                · exact Rat.not_le.mp (fun hh => hov (Or.inr hh))
+                · exact Rat.not_le.mp (fun hh => hov (Or.inl hh))
+
+example : numberParseFloat " 1_0.5e1 " = some 105 ∧ numberParseFloat "1e5" = some 100000 ∧ numberParseFloat ".5" = some ((1 : Rat) / 2) ∧
+    numberParseFloat "5." = some 5 ∧ numberParseFloat "\u0663" = some 3 := by decide +kernel
+example : numberParseFloat "12abc" = none ∧ numberParseFloat "" = none ∧ numberParseFloat "1e" = none ∧ numberParseFloat "1__0" = none ∧
+    numberParseFloat "0x10" = none ∧ numberParseFloat "1 2" = none ∧ numberParseFloat "1e400" = none := by decide +kernel
+
+/-- A non-finite reading of the text (`inf`, `infinity`, `nan` in any case, signed) gives null, never a non-finite number. -/
+theorem parse_float_never_nonfinite (s : String) (h : (∃ b, floatText s = some (.inf b)) ∨ floatText s = some .nan) :
+    numberParseFloat s = none := by
+  unfold numberParseFloat
+  rcases h with ⟨b, h⟩ | h <;> simp [h]
+
+example : floatText "inf" = some (.inf false) ∧ floatText " -Infinity" = some (.inf true) ∧ floatText "NaN" = some .nan ∧
+    numberParseFloat "inf" = none ∧ numberParseFloat "-inf" = none ∧ numberParseFloat "nan" = none ∧
+    numberParseFloat "Infinity" = none := by decide
+
+/-- `int(text, base)` answers only if the whole text is `[+-]?`, an optional radix prefix, and digits below the base with single
+underscores between digits; the answer is the value of those digits. -/
+theorem parse_int_total (maxDigits : Nat) (s : String) (base : Nat) (n : Int) (h : pyInt maxDigits s base = some n) :
+    ∃ l ds, pyTransform s.toList = some l ∧
+      IntBody base (stripRadixPrefix base (scanSign (trimPy l)).2) ds ∧
+      n = (if (scanSign (trimPy l)).1 = .minus then - (digitsVal base ds : Int) else (digitsVal base ds : Int)) ∧
+      (isPow2Base base = false → 0 < maxDigits → ds.length ≤ maxDigits) := by
+  unfold pyInt at h
+  cases hl : pyTransform s.toList with
+  | none => simp [hl] at h
+  | some l =>
+    simp only [hl] at h
+    by_cases hus : (stripRadixPrefix base (scanSign (trimPy l)).2).head? = some '_'
+    · simp [hus] at h
+    · simp only [hus, if_false] at h
+      cases hsc : intScan base (Char.ofNat 0) (stripRadixPrefix base (scanSign (trimPy l)).2) with
+      | none => simp [hsc] at h
+      | some ds =>
+        simp only [hsc] at h
+        by_cases hnil : ds = []
+        · simp [hnil] at h
+        · simp only [hnil, if_false] at h
+          by_cases hlim : isPow2Base base = false ∧ 0 < maxDigits ∧ maxDigits < ds.length
+          · simp [hlim] at h
+          · rw [if_neg hlim] at h
+            simp only [Option.some.injEq] at h
+            have hsound := intScan_sound base _ _ _ hsc
+            simp only [hus, if_false] at hsound
+            refine ⟨l, ds, rfl, ?_, h.symm, ?_⟩
+            · rcases hsound with ⟨_, h2, _⟩ | h3
+              · exact absurd h2 hnil
+              · exact h3
+            · intro h1 h2
+              apply Classical.byContradiction
+              intro h3
+              exact hlim ⟨h1, h2, by omega⟩
+
+example : pyInt 4300 "0x_1f" 16 = some 31 ∧ pyInt 4300 " -zz " 36 = some (-1295) ∧ pyInt 4300 "0b101" 2 = some 5 ∧
+    pyInt 4300 "1_0" 10 = some 10 ∧ pyInt 4300 "0b1" 16 = some 177 := by decide
+example : pyInt 4300 "0x10" 10 = none ∧ pyInt 4300 "12abc" 10 = none ∧ pyInt 4300 "" 10 = none ∧ pyInt 4300 "1.0" 10 = none ∧
+    pyInt 4300 "9" 9 = none ∧ pyInt 4300 "1__0" 10 = none ∧ pyInt 4300 "0x" 16 = none ∧ pyInt 4300 "+" 10 = none := by decide
+example : numberParseInt 4300 "12" 37 = none ∧ numberParseInt 4300 "12" ((5 : Rat) / 2) = none ∧ numberParseInt 4300 "12" 10 = some 12 := by
+  decide +kernel
+
+/-! ## Python `int` carriers -/
+
+/-- `str(n)` is an optional `-` followed by ASCII digits: no decimal point, no exponent. -/
+theorem int_prints_digits_only (n : Int) :
+    ∃ ds, AsciiDigs ds ∧ ds ≠ [] ∧ (valueStringNum (.int n)).toList = (if n < 0 then ['-'] else []) ++ ds ∧
+      '.' ∉ (valueStringNum (.int n)).toList := by
+  refine ⟨natStr n.natAbs, ascii_natStr _, natStr_ne_nil _, ?_, ?_⟩
+  · by_cases hn : n < 0 <;> simp [valueStringNum, intStr, intStrL, hn, String.toList_ofList]
+  · have hd := dot_not_ascii (ascii_natStr n.natAbs)
+    by_cases hn : n < 0 <;> simp [valueStringNum, intStr, intStrL, hn, String.toList_ofList, hd]
+
+/-- … and that text denotes `n`. -/
+theorem int_text_roundtrip (n : Int) : decVal (valueStringNum (.int n)) = some (n : Rat) := by
+  have hasc := ascii_natStr n.natAbs
+  by_cases hn : n < 0
+  · have hw : TokWF false ⟨.minus, natStr n.natAbs, none, none⟩ :=
+      ⟨digs_of_ascii hasc, by simp, Or.inl (natStr_ne_nil _), by simp⟩
+    have htext : (valueStringNum (.int n)).toList = Tok.text ⟨.minus, natStr n.natAbs, none, none⟩ := by
+      simp [valueStringNum, intStr, intStrL, hn, String.toList_ofList, Tok.text, Sign.text, fracText, expText]
+    simp only [decVal, htext, decValL_text hw, Tok.val, signVal, fracVal, expVal, natOf_natStr, Option.some.injEq]
+    have : n = - (n.natAbs : Int) := by omega
+    conv => rhs; rw [this]
+    simp [Rat.intCast_neg, Rat.intCast_natCast]
+    grind
+  · have hw : TokWF false ⟨.none, natStr n.natAbs, none, none⟩ :=
+      ⟨digs_of_ascii hasc, by simp, Or.inl (natStr_ne_nil _), by simp⟩
+    have htext : (valueStringNum (.int n)).toList = Tok.text ⟨.none, natStr n.natAbs, none, none⟩ := by
+      simp [valueStringNum, intStr, intStrL, hn, String.toList_ofList, Tok.text, Sign.text, fracText, expText]
+    simp only [decVal, htext, decValL_text hw, Tok.val, signVal, fracVal, expVal, natOf_natStr, Option.some.injEq]
+    have : n = (n.natAbs : Int) := by omega
+    conv => rhs; rw [this]
+    simp [Rat.intCast_natCast]
+    grind
+
+example : valueStringNum (.int (-9007199254740993)) = "-9007199254740993" ∧ valueStringNum (.int 0) = "0" := by decide
+
+/-! ## the round trip, with CPython's `repr` / `float` as explicit assumptions -/
+
+/-- What is assumed about CPython for finite floats `F` (NOT modelled, DESIGN §6):
+* A1 `repr_grammar`: `repr x` is in the grammar `-?D+\.D+ | -?D(\.D+)?e[+-]DD+`;
+* A1 `float_repr`:   `float(repr x) == x` — stated through A2:
+* A2: `float(text)` depends only on the rational number `q` the text denotes: it is `ofRat q` (CPython: the correctly rounded
+  double) whenever `|q|` is below the overflow bound. -/
+structure PyFloat (F : Type) where
+  repr : F → String
+  ofRat : Rat → F
+  repr_grammar : ∀ x, IsRepr (repr x)
+  float_repr : ∀ x, ∃ q, decVal (repr x) = some q ∧ -overflowBound < q ∧ q < overflowBound ∧ ofRat q = x
+
+/-- `value_string` on a float carrier, over the assumed `repr` -/
+def valueStringF {F : Type} (P : PyFloat F) (x : F) : String := valueStringNum (.float (P.repr x))
+
+/-- `numberParseFloat` as a function into floats, over the assumed `float()` (A2) -/
+def numberParseFloatF {F : Type} (P : PyFloat F) (s : String) : Option F := (numberParseFloat s).map P.ofRat
+
+/-- evaluating a source literal, over the assumed `float()` (A2): consumed length and value -/
+def literalF {F : Type} (P : PyFloat F) (s : String) : Option (Nat × F) :=
+  match literal s with
+  | .number n q => some (n, P.ofRat q)
+  | _ => none
+
+theorem numberParseFloat_strip_repr (s : String) (h : IsRepr s) (q : Rat) (hq : decVal s = some q)
+    (hlo : -overflowBound < q) (hhi : q < overflowBound) : numberParseFloat (stripDotZeros s) = some q := by
+  obtain ⟨t, hl, hw, hr⟩ := repr_tok h
+  obtain ⟨t', hs, hw', ha', hv, _, _⟩ := strip_tok hw hr
+  have hqt : t.val = q := by simpa [decVal, hl, decValL_text hw] using hq
+  have hst : stripDotZeros s = String.ofList t'.text := by simp [stripDotZeros, hl, hs]
+  have hno : ¬ (overflowBound ≤ q ∨ q ≤ -overflowBound) := by
+    rintro (h1 | h1)
+    · exact absurd hhi (Rat.not_lt.mpr h1)
+    · exact absurd hlo (Rat.not_lt.mpr h1)
+  unfold numberParseFloat
+  rw [hst, floatText_text hw' (tokWF_weaken hw') ha', hv, hqt]
+  simp [hno]
+
+/-- **Round trip under A1/A2**: a finite float, stringified (`'' + x`, `stringNew`, `arrayJoin`, `systemLog` all use
+`value_string`) and parsed back with `numberParseFloat`, is the same float. -/
+theorem roundtrip_under_assumptions {F : Type} (P : PyFloat F) (x : F) :
+    numberParseFloatF P (valueStringF P x) = some x := by
+  obtain ⟨q, hq, hlo, hhi, hx⟩ := P.float_repr x
+  simp [numberParseFloatF, valueStringF, valueStringNum,
+    numberParseFloat_strip_repr (P.repr x) (P.repr_grammar x) q hq hlo hhi, hx]
+
+/-- **Round trip through source text under A1/A2**: for a float whose text does not start with `-`, the stringified value is,
+as a whole, a numeric literal that evaluates to the same float. -/
+theorem literal_roundtrip_under_assumptions {F : Type} (P : PyFloat F) (x : F)
+    (hpos : (P.repr x).toList.head? ≠ some '-') :
+    literalF P (valueStringF P x) = some ((valueStringF P x).length, x) := by
+  obtain ⟨q, hq, hlo, hhi, hx⟩ := P.float_repr x
+  obtain ⟨q', hq', hlit⟩ := strip_is_literal (P.repr x) (P.repr_grammar x) hpos
+  have : q' = q := by rw [hq] at hq'; exact (Option.some.inj hq').symm
+  subst this
+  simp [literalF, valueStringF, valueStringNum, hlit, hx]
+
+/-- The assumptions are satisfiable by a non-trivial instance: a three-element "float type" with `repr`s of the three shapes. -/
+def toyFloats : PyFloat (Fin 3) where
+  repr := fun x => if x = 0 then "123.0" else if x = 1 then "1.5e-07" else "1e+16"
+  ofRat := fun q => if q = 123 then 0 else if q = (3 : Rat) / 20000000 then 1 else 2
+  repr_grammar := by decide
+  float_repr := by
+    intro x
+    match x with
+    | 0 => exact ⟨123, by decide +kernel⟩
+    | 1 => exact ⟨(3 : Rat) / 20000000, by decide +kernel⟩
+    | 2 => exact ⟨10000000000000000, by decide +kernel⟩
+
+example : numberParseFloatF toyFloats (valueStringF toyFloats 1) = some 1 := roundtrip_under_assumptions toyFloats 1
+example : valueStringF toyFloats 0 = "123" ∧ valueStringF toyFloats 2 = "1e+16" := by decide
+example : literalF toyFloats (valueStringF toyFloats 2) = some (5, 2) :=
+  literal_roundtrip_under_assumptions toyFloats 2 (by decide)
 
 end C13
